@@ -27,6 +27,16 @@ FIRST_MISSED = {
     'C17-m4': 'a shell defect (stale numberify formatter across .reload): missed by the C17 and C19 checks of round 1; caught by the C19 check after sessions that rewrite the ledger file and .reload were added (the C17 check exercises numberify_results and run_query, not the shell)',
     'C20-m3': 'missed by the C20 check of round 1 (driven runs executed pre-parsed statements; module scan skipped instances of foreign classes); caught after module-level instances were added to the shared-state inventory and a text-statement stress was added',
     'C20-m4': 'missed by the C20 check of round 1 (ledger data not fingerprinted); caught after the ledger fingerprint and the any_meta-vs-meta driven scenarios were added',
+    'C04-m6': 'missed by the C04 check of round 2 (sweeps tolerated non-TypeError exceptions; no amount-valued metadata under operators); caught after the oracle was tightened to "no exception escapes an accepted query" and object-valued sources of every metadata kind were swept',
+    'C05-m5': 'missed by the C05 check of round 2 (model rejects it, but no stream generated aggregate-only targets + uncovered ORDER BY); caught after the uncovered-order families were added',
+    'C06-m5': 'missed by the C06 check of round 2 (no literal longer than 21 digits); caught after 29-40 digit literals were added',
+    'C08-m5': 'missed by the C08 check of round 2; caught after the look-alike IN-subqueries stream (equal ASTs, different parameters / enclosing tables) was added',
+    'C09-m5': 'missed by the C09 check of round 2 (the fresh-connection oracle ran in the same process as the history, so a process-wide cache polluted both); caught after the oracle was moved to fresh processes and regex-function statements were added',
+    'C09-m6': 'missed by the C09 check of round 2; caught after ORDER BY expressions spelled exactly like a target but bound to another parameter were added',
+    'C12-m5': 'missed by the C12 check of round 2 (no GROUP BY ... LIMIT without ORDER BY); caught after the grouplimit family was added (the C02 check catches the same idea)',
+    'C13-m5': 'a shell defect: missed by the C13 check of round 2 (its shell oracle typed statements into the same shell instance), caught by the C19 check; the C13 check catches it after shell sessions with a fresh-connection oracle were added',
+    'C14-m6': 'missed by the C14 check of round 2 (no placeholders in BALANCES/JOURNAL); caught after parameterised BALANCES/JOURNAL vs SELECT and the clause-identity check were added (the C09 check catches it too)',
+    'C15-m6': 'missed by the C15 check of round 2; caught after mixed name/position references to the same column were added to the invalid-reference stream',
     'C15-m3': 'missed by the C15 check of round 1 (no ORDER BY in pivot queries); caught after ORDER BY clauses before PIVOT BY were added to the generator',
     'C15-m2': 'missed by the first C15 check (only valid PIVOT BY references generated); caught after the invalid-reference stream was added (the C05 check also rejects it)',
 }
